@@ -4,6 +4,7 @@ import itertools
 from .. import astlib as A
 from .. import fdeval as FD
 from ..facts import AnalysisBroken
+from ..rules import undoeval as UE
 
 LEVEL = "other"
 EXPLANATION = ("Decided are the clauses that are code shapes or bookkeeping over small integers, not histories: (R15.1) writer/reader "
@@ -14,20 +15,14 @@ EXPLANATION = ("Decided are the clauses that are code shapes or bookkeeping over
                "positions, sizes and distances of a small history, rewinds newest first / replays oldest first exactly the events "
                "between the current position and the destination clamped to [0, size], and leaves the position there. (R15.3) "
                "recordEvent, evaluated likewise, drops the undone tail before recording, appends unless the event merged, and keeps "
-               "at most max_history_size events by dropping the oldest; the constructor sets that size to 20. (R15.4) mergeEvent "
-               "looks at stored events newest first, stops at the first one older than two seconds and merges only into an event "
-               "with the same address (strcmp == 0). Which values the messages finally carry over whole histories is not decided.")
-TRUSTED = ["clang 14 AST", "sa/fdeval.py"]
+               "at most max_history_size events by dropping the oldest; the constructor sets that size to 20. (R15.4) mergeEvent, "
+               "evaluated on symbolic events over 351 small histories, merges into the newest stored event with the incoming "
+               "address that lies before the first one older than two seconds, and nowhere else. Which values the messages finally carry over whole histories is not decided.")
+TRUSTED = ["clang 14 AST", "sa/fdeval.py", "sa/rules/undoeval.py (model of rtosc_argument / rtosc_amessage / difftime / strcmp on tokens)"]
 ASSUMPTIONS = ["std::deque behaves as documented (size, resize, push_back, pop_front, operator[])",
                "the undo event format is the one decided by C14 R14d"]
 
 UNIT = "undo-history.cpp"
-
-
-def _arg_index(call):
-    """rtosc_argument(<msg expr>, K) -> (source text of msg expr, K)"""
-    a = A.kids(call)[1:]
-    return A.src(A.strip_casts(a[0])).replace(" ", ""), A.int_literal(a[1])
 
 
 def run(ctx):
@@ -35,68 +30,72 @@ def run(ctx):
     ctx.rule("R15.1", "EVENT-ROLES: rewind sends (argument 0 as address, argument 1 = old value), replay (argument 0, argument 2 = new value), each with the single type tag at offset 2 of the event's type string; mergeEvent splices (address, old of the stored event, new of the incoming event)")
     ctx.rule("R15.2", "SEEK: seekHistory rewinds newest first / replays oldest first exactly the events between the position and the destination clamped to [0, size] (evaluated over all positions, sizes 0..4, distances -6..6)")
     ctx.rule("R15.3", "RECORD: recordEvent truncates the history to the current position, appends unless merged, keeps at most max_history_size events by dropping the oldest and keeps the position at the end (evaluated over positions/sizes with a capacity of 3); the constructor initialises the capacity to 20")
-    ctx.rule("R15.4", "MERGE-WINDOW: mergeEvent scans stored events newest first, stops at the first event more than 2 seconds old, and merges only on equal addresses (strcmp == 0)")
+    ctx.rule("R15.4", "MERGE-WINDOW: mergeEvent, evaluated over small histories (0..3 stored events, ages 0..7 s, two addresses), merges into exactly the newest stored event that has the incoming address and lies before the first event more than 2 seconds old")
 
-    # ---- R15.1
+    # ---- R15.1 (rewind / replay): evaluated on a symbolic event
     for q, want in (("UndoHistoryImpl::rewind", 1), ("UndoHistoryImpl::replay", 2)):
         fn = u.function(q)
-        msgp = u.params(fn)[0]["id"]
-        am = [c for c in A.calls_in(u.body(fn)) if A.callee_name(c) == "rtosc_amessage"]
-        ctx.require(len(am) == 1, "%s: expected one rtosc_amessage call" % q)
-        a = A.kids(am[0])[1:]
+        r = UE.Run(u)
+        try:
+            r.run(fn, {u.params(fn)[0]["id"]: ("msg", "E")})
+        except FD.Unknown as e:
+            raise AnalysisBroken("R15.1: %s not evaluable: %s" % (q, e))
+        sent = None
+        if len(r.callbacks) == 1:
+            cbk = r.callbacks[0]
+            built = [m for m in r.amessages[:cbk["messages_built_before"]] if m["buf"] == cbk["buffer"]]
+            sent = built[-1] if built else None
+        det = {"callback_invocations": len(r.callbacks), "expected_value_argument": want}
+        ok = False
+        if sent is not None:
+            det.update({"address": list(sent["address"]) if isinstance(sent["address"], tuple) else sent["address"],
+                        "types": list(sent["types"]) if isinstance(sent["types"], tuple) else sent["types"],
+                        "arguments": [list(x) if isinstance(x, tuple) else x for x in sent["args"]]})
+            ok = sent["address"] == ("arg", "E", 0) and sent["types"] == ("types", "E", 2) and sent["args"][:1] == [("arg", "E", want)]
+        ctx.ob("R15.1", q.split("::")[-1], ok, site=A.where(fn), detail=det,
+               what="%s hands the callback %s; the event is `s<t><t> path old new`, so the message must be (address = argument 0, type string at offset 2, value = argument %d)" % (
+                   q.split("::")[-1], {k_: v_ for k_, v_ in det.items() if k_ in ("address", "types", "arguments", "callback_invocations")}, want))
 
-        def resolve(e):
-            e = A.strip_casts(e)
-            if e.get("kind") == "UnaryOperator" and e.get("opcode") == "&":
-                e = A.strip_casts(A.kids(e)[0])
-            for _ in range(3):
-                if e.get("kind") == "DeclRefExpr":
-                    d = u.by_id.get((e.get("referencedDecl") or {}).get("id"))
-                    if d is not None and d.get("kind") == "VarDecl" and A.kids(d):
-                        e = A.strip_casts(A.kids(d)[-1])
-                        continue
-                break
-            return e
-        addr_calls = [c for c in A.calls_in(resolve(a[2])) if A.callee_name(c) == "rtosc_argument"] or ([resolve(a[2])] if A.callee_name(resolve(a[2])) == "rtosc_argument" else [])
-        val_e = resolve(a[4])
-        val_calls = [c for c in A.calls_in(val_e) if A.callee_name(c) == "rtosc_argument"] or ([val_e] if val_e.get("kind") == "CallExpr" and A.callee_name(val_e) == "rtosc_argument" else [])
-        ty = resolve(a[3])
-        off = None
-        if ty.get("kind") == "BinaryOperator" and ty.get("opcode") == "+":
-            l_, r_ = A.kids(ty)
-            if any(A.callee_name(c) == "rtosc_argument_string" for c in A.calls_in(ty)):
-                off = A.int_literal(r_) if A.int_literal(r_) is not None else A.int_literal(l_)
-        ok = len(addr_calls) == 1 and _arg_index(addr_calls[0])[1] == 0 and len(val_calls) == 1 and _arg_index(val_calls[0])[1] == want and off == 2 and \
-            all(A.ref_id(A.kids(c)[1]) == msgp for c in addr_calls + val_calls)
-        ctx.ob("R15.1", q.split("::")[-1], ok, site=A.where(am[0]),
-               detail={"address_from_argument": _arg_index(addr_calls[0])[1] if len(addr_calls) == 1 else None,
-                       "value_from_argument": _arg_index(val_calls[0])[1] if len(val_calls) == 1 else None, "expected_value_argument": want, "type_string_offset": off},
-               what="%s builds its message from argument %s with the type string at offset %s; the event is `s<t><t> path old new`, so it must be argument %d at offset 2" % (
-                   q.split("::")[-1], _arg_index(val_calls[0])[1] if len(val_calls) == 1 else "?", off, want))
+    # ---- R15.1 (mergeEvent) and R15.4: evaluated over small histories (ages non-decreasing towards the past)
     fm = u.function("UndoHistoryImpl::mergeEvent")
-    msgm = [p_ for p_ in u.params(fm) if p_.get("name") == "msg"] or [u.params(fm)[1]]
-    slots = {}
-    for x in A.walk(u.body(fm)):
-        if x.get("kind") in ("BinaryOperator", "CXXOperatorCallExpr"):
-            ks = A.kids(x)
-            if x.get("kind") == "BinaryOperator" and x.get("opcode") == "=":
-                lhs, rhs = ks[0], ks[1]
-            elif x.get("kind") == "CXXOperatorCallExpr" and len(ks) == 3 and "operator=" in A.src(ks[0]):
-                lhs, rhs = ks[1], ks[2]
-            else:
-                continue
-            l = A.strip_casts(lhs)
-            if l.get("kind") == "ArraySubscriptExpr" and A.int_literal(A.kids(l)[1]) is not None:
-                rc = [c for c in A.calls_in(rhs) if A.callee_name(c) == "rtosc_argument"]
-                r0 = A.strip_casts(rhs)
-                if not rc and r0.get("kind") == "CallExpr" and A.callee_name(r0) == "rtosc_argument":
-                    rc = [r0]
-                if len(rc) == 1:
-                    src_, k_ = _arg_index(rc[0])
-                    slots[A.int_literal(A.kids(l)[1])] = ("incoming" if A.ref_id(A.kids(rc[0])[1]) == msgm[0]["id"] else "stored", k_)
-    okm = slots == {0: ("incoming", 0), 1: ("stored", 1), 2: ("incoming", 2)}
-    ctx.ob("R15.1", "mergeEvent", okm, site=A.where(fm), detail={"merged_arguments": {str(k): list(v) for k, v in sorted(slots.items())}},
-           what="mergeEvent splices %s; a merged event must carry (address of the incoming, OLD value of the stored, NEW value of the incoming event)" % slots)
+    env0, roles = UE.bind_merge_params(u, fm)
+    ctx.require({"msg", "buf", "now"} <= set(roles), "mergeEvent: parameters (time, event, buffer) not recognised")
+    AGES = (0.0, 1.0, 2.0, 3.0, 7.0)
+    bad_sel, bad_splice = [], []
+    nmodel = 0
+    for pos in range(0, 4):
+        for ages_new_first in itertools.combinations_with_replacement(AGES, pos):
+            ages = list(reversed(ages_new_first))        # index 0 = oldest
+            for addrs in itertools.product("AB", repeat=pos):
+                r = UE.Run(u, pos=pos, ages=ages, addrs=addrs)
+                try:
+                    rv = r.run(fm, dict(env0))
+                except FD.Unknown as e:
+                    raise AnalysisBroken("R15.4: mergeEvent not evaluable: %s" % e)
+                nmodel += 1
+                want = None
+                for i in range(pos - 1, -1, -1):
+                    if ages[i] > 2:
+                        break
+                    if addrs[i] == "A":
+                        want = i
+                        break
+                into = sorted(i for (f_, i) in r.stores if f_ == "second")
+                model = {"position": pos, "ages_oldest_first": ages, "addresses_oldest_first": "".join(addrs), "incoming_address": "A"}
+                if bool(rv) != (want is not None) or into != ([want] if want is not None else []) or r.oob:
+                    bad_sel.append(dict(model, merged_into=into, returns=rv, expected_merge_into=want, out_of_range_reads=r.oob[:3]))
+                    continue
+                if want is not None:
+                    built = [m for m in r.amessages if m["buf"] == ("buf",)]
+                    m = built[-1] if built else None
+                    okm = m is not None and r.stores[("second", want)] == ("buf",) and len(m["args"]) == 3 and \
+                        r.value_of(m["args"][0]) == ("address", "A") and m["args"][1] == ("arg", want, 1) and m["args"][2] == ("arg", "IN", 2) and \
+                        m["address"] in (("msg", "IN"), ("msg", want)) and m["types"] in (("types", "IN", 0), ("types", want, 0))
+                    if not okm:
+                        bad_splice.append(dict(model, merged_into=want, stored=r.stores.get(("second", want)),
+                                               message={k_: (list(v_) if isinstance(v_, tuple) else [list(x) if isinstance(x, tuple) else x for x in v_] if isinstance(v_, list) else v_) for k_, v_ in (m or {}).items()}))
+    ctx.ob("R15.1", "mergeEvent", not bad_splice, site=A.where(fm), detail={"histories": nmodel, "mismatches": bad_splice[:4]},
+           what="mergeEvent does not store (address, OLD value of the stored event, NEW value of the incoming event) in the entry it merges into: %s" % bad_splice[:1])
 
     # ---- R15.2
     fs = u.function("UndoHistory::seekHistory")
@@ -218,33 +217,5 @@ def run(ctx):
            what="the history keeps %s events, the documented capacity is 20" % cap)
 
     # ---- R15.4
-    loops = [x for x in A.walk(u.body(fm)) if x.get("kind") == "ForStmt"]
-    ctx.require(len(loops) == 1, "mergeEvent: scan loop not found")
-    lp = loops[0]
-    raw = lp.get("inner", [])
-    init, cond, inc = raw[0], raw[2], raw[3]
-    newest_first = inc.get("kind") == "UnaryOperator" and inc.get("opcode") == "--" and "history_pos" in A.src(init)
-    window = None
-    for x in A.walk(raw[4]):
-        if x.get("kind") == "IfStmt" and any(A.callee_name(c) == "difftime" for c in A.calls_in(A.kids(x)[0])) and any(y.get("kind") == "BreakStmt" for y in A.walk(A.kids(x)[1])):
-            c = A.strip_casts(A.kids(x)[0])
-            res = {}
-            for d in (0.0, 1.0, 2.0, 2.5, 3.0):
-                try:
-                    res[d] = bool(FD.Eval(call=lambda nm, vals, nd, d=d: d if nm == "difftime" else (_ for _ in ()).throw(FD.Unknown("call " + str(nm), nd)),
-                                          node_hook=lambda n_, e_: 0 if n_.get("kind") in ("DeclRefExpr", "MemberExpr", "CXXOperatorCallExpr") else NotImplemented).ev(c))
-                except FD.Unknown as e:
-                    raise AnalysisBroken("R15.4: merge window test not evaluable: %s" % e)
-            window = res
-    ok_window = window is not None and window[0.0] is False and window[1.0] is False and window[2.0] is False and window[3.0] is True
-    same_addr = False
-    for x in A.walk(raw[4]):
-        if x.get("kind") == "IfStmt":
-            c = A.strip_casts(A.kids(x)[0])
-            sc = [k_ for k_ in A.calls_in(c) if A.callee_name(k_) == "strcmp"]
-            if len(sc) == 1 and len([k_ for k_ in A.calls_in(sc[0]) if A.callee_name(k_) == "getUndoAddress"]) == 2:
-                same_addr = (c.get("kind") == "UnaryOperator" and c.get("opcode") == "!") or \
-                    (c.get("kind") == "BinaryOperator" and c.get("opcode") == "==" and 0 in (A.int_literal(A.kids(c)[0]), A.int_literal(A.kids(c)[1])))
-    ctx.ob("R15.4", "mergeEvent", bool(newest_first and ok_window and same_addr), site=A.where(lp),
-           detail={"scans_newest_first": bool(newest_first), "stops_when_older_than": {str(k): v for k, v in (window or {}).items()}, "merges_on_equal_address": same_addr},
-           what="mergeEvent's scan is not `newest first, stop at the first event more than 2 s old, merge on equal address`: %s" % {"newest_first": newest_first, "window": window, "same_address": same_addr})
+    ctx.ob("R15.4", "mergeEvent", not bad_sel, site=A.where(fm), detail={"histories": nmodel, "mismatches": bad_sel[:5]},
+           what="mergeEvent does not merge into the newest stored event that has the same address and lies before the first event more than 2 s old: %s" % bad_sel[:2])
